@@ -647,6 +647,7 @@ func ioLinesIter(L *LState) int {
 func ioLines(L *LState) int {
 	if L.Get(1) == LNil { // lua_isnoneornil: an explicit nil is an absent argument
 		// like file:lines() on the default input: the iterator holds the file and does not close it
+		errorIfFileIsClosed(L, fileDefIn(L).Value.(*lFile)) // tofile() in io_lines: a closed default input raises here, not at the first line
 		L.Push(L.NewClosure(fileLinesIter, L.Get(UpvalueIndex(1)), fileDefIn(L)))
 		return 1
 	}
